@@ -313,6 +313,9 @@ def run(ctx):
         _c03c.consumers(ctx, "R11.1", only="IgnoreFilterer::check_event")
         _c03c.builders_stay(ctx, "R11.3")
         _c03c.matcher_selection(ctx, "R11.1")
+        _c03c.simplify_rule(ctx, "R11.1")
+        from . import c14 as _c14o
+        _c14o.origin_table(ctx, "R11.3")
     except Skip:
         pass
 
